@@ -29,10 +29,12 @@ def tasks(tier, seed):
     return [
         func("bt.core.Node._set_root"), func("bt.core.Node.use_integer_positions"), func("bt.core.StrategyBase.set_commissions"),
         func("bt.core.StrategyBase._create_child_if_needed"),
+        func("bt.core.StrategyBase.close"),      # a declared, not yet created child is closed like an eager flat one: no-op (after F21)
         func("bt.core.Node._add_children", variant="str"), func("bt.core.Node._add_children", variant="nodes"), func("bt.core.Node._add_children", variant="nodes-dc"),
         func("bt.backtest.Backtest.run"),
         dict(kind="custom", module="props.misc_tasks", fn="c09_constants"), dict(kind="custom", module="props.misc_tasks", fn="backtest_init_task"),
         dict(kind="custom", module="props.c19_tasks", fn="universe_scope_task"),
+        dict(kind="custom", module="props.misc_tasks", fn="c11_static"),        # of it: setup_from_parent works on a copy of the parent's setup arguments
         dict(kind="custom", module="props.c04_tasks", fn="setup_clauses"),
         *UPDATE_ALL,
         dict(kind="custom", module="props.bounded", fn="run_script", script="c19_tree", seed=seed, n=40 if tier == "quick" else 600, props=["C19"]),
